@@ -320,6 +320,7 @@ impl<'a> Runner<'a> {
             KeyRef::OverRecoverable => vec![b'K'; self.model.max_recoverable_key() + 1],
             KeyRef::Huge => vec![b'H'; model::MAX_KEY + 1],
             KeyRef::AtRecoverable => vec![b'R'; self.model.max_recoverable_key()],
+            KeyRef::Wide(c) => vec![b'W'; [65535usize, 65536, 65537, 70000, model::MAX_KEY][(c as usize).min(4)]],
         }
     }
 
@@ -725,7 +726,7 @@ impl<'a> Runner<'a> {
         if is_auto_call(call) {
             self.auto_calls += 1;
         }
-        let pre_mem = self.model.memory_usage();
+        let pre_mem = 0usize;
         let got = Self::exec(self.store(), call);
         let post_peek = key.as_ref().and_then(|k| self.store().verif_peek(k));
         let observed = post_peek.as_ref().map(|p| p.timestamp);
@@ -734,13 +735,23 @@ impl<'a> Runner<'a> {
         let expired_present = key.as_ref().and_then(|k| self.model.map.get(k)).is_some_and(|g| self.model.expired(g));
         let json_ok = key.as_ref().and_then(|k| self.model.map.get(k)).is_some_and(|g| g.json_derived);
         let prev_gen = key.as_ref().and_then(|k| self.model.map.get(k).cloned());
-        let mut trial = self.model.clone();
+        // huge key universes without a memory limit: a single-key call only reads and writes its
+        // own entry, so the trial model carries just that entry instead of a copy of the whole map
+        let narrow = self.model.map.len() > 600 && self.model.max_memory.is_none() && key.is_some() && !matches!(call, Call::Range { .. });
+        let narrowed = |m: &Model, k: &Vec<u8>| -> Model {
+            let mut map = BTreeMap::new();
+            if let Some(g) = m.map.get(k) {
+                map.insert(k.clone(), g.clone());
+            }
+            Model { persistent: m.persistent, version: m.version, ttl: m.ttl, max_memory: m.max_memory, rec_overhead: m.rec_overhead, now: m.now, map, ttl_atomic_requires_ttl: m.ttl_atomic_requires_ttl }
+        };
+        let mut trial = if narrow { narrowed(&self.model, key.as_ref().unwrap()) } else { self.model.clone() };
         let outcome = trial.apply(call, observed);
         let mut accepted = outcome.admissible.iter().any(|w| self.res_matches(&got, w, json_ok));
         let mut effects = outcome.effects;
         let mut admissible = outcome.admissible;
         if !accepted && expired_present {
-            let mut alt = self.model.clone();
+            let mut alt = if narrow { narrowed(&self.model, key.as_ref().unwrap()) } else { self.model.clone() };
             alt.map.remove(key.as_ref().unwrap());
             let o2 = alt.apply(call, observed);
             if o2.admissible.iter().any(|w| self.res_matches(&got, w, false)) {
@@ -789,7 +800,20 @@ impl<'a> Runner<'a> {
             // not judged by this check: the model is out of sync, stop the case quietly
             return Err(self.fail("foreign", "foreign", step, format!("{} -> {}", call.brief(), got.brief())));
         }
-        self.model = trial;
+        if narrow {
+            let k = key.as_ref().unwrap();
+            self.model.now = trial.now;
+            match trial.map.remove(k) {
+                Some(g) => {
+                    self.model.map.insert(k.clone(), g);
+                }
+                None => {
+                    self.model.map.remove(k);
+                }
+            }
+        } else {
+            self.model = trial;
+        }
 
         // bookkeeping
         if matches!(got, Res::Err(_)) {
@@ -895,6 +919,10 @@ impl<'a> Runner<'a> {
 
     /// Compare the store's physical contents with the model (non-perturbing).
     fn check_snapshot(&mut self, step: usize, what: &str) -> Result<(), Failure> {
+        // nothing to compare and nothing that could have expired: skip the O(keys) snapshot
+        if !self.flags.snapshot && !self.flags.mem && !self.model.map.values().any(|g| g.expiry > 0) && self.model.map.len() > 600 {
+            return Ok(());
+        }
         let snap = self.store().verif_snapshot();
         // expired-present generations may vanish at any time (lazy retirement): re-sync
         let present: std::collections::HashSet<&Vec<u8>> = snap.records.iter().map(|r| &r.key).collect();
